@@ -200,7 +200,7 @@ func init() {
 			*(*uint64)(reflect2.PtrOf(p)) = dec.stringToUint64(*(*string)(reflect2.PtrOf(o)), 64)
 		},
 		{reflect.String, reflect.Uintptr}: func(dec *Decoder, o interface{}, p interface{}) {
-			*(*uintptr)(reflect2.PtrOf(p)) = uintptr(dec.stringToUint64(*(*string)(reflect2.PtrOf(o)), 64))
+			*(*uintptr)(reflect2.PtrOf(p)) = uintptr(dec.stringToUint64(*(*string)(reflect2.PtrOf(o)), 0))
 		},
 		{reflect.String, reflect.Float32}: func(dec *Decoder, o interface{}, p interface{}) {
 			*(*float32)(reflect2.PtrOf(p)) = dec.stringToFloat32(*(*string)(reflect2.PtrOf(o)))
